@@ -49,6 +49,8 @@ def run(tier, rep):
     de.mc_mini(rep, 10 if quick else 12, liveness=True)
     # two-run lemma: bytes after the last field change nothing (TailIndependent)
     de.mc_pair(rep, "tail", 7 if quick else 10)
+    # ... and inverting one bit of a plain field changes that attribute only (FieldLocal)
+    de.mc_pair(rep, "flip", 6 if quick else 10)
     # (B) the mini scope through the real code
     recs, verdicts = de.judge_minis(rep, 8 if quick else 12)
     rep.count("traces_validated_against_impl", len(recs))
